@@ -207,8 +207,8 @@ def extract():
         if not names or re.sub(r'"[^"\\]*"|\||\s', "", pat):
             raise ExtractError(f"run_managed_hook: unexpected arm pattern {pat!r}")
         calls = []
-        for m in re.finditer(r"\b((?:[a-z_]+_hooks)::[a-z_0-9]+|maybe_[a-z_0-9]+|handle_[a-z_0-9]+|force_restore_rebase_hooks|fetch_authorship_notes|RewriteLogEvent::[a-z_]+)\s*\(", arm):
-            c = m.group(1)
+        for m in re.finditer(r"(?<![.\w:])((?:[a-z_]+_hooks)::[a-z_0-9]+|maybe_[a-z_0-9]+|handle_[a-z_0-9]+|is_[a-z_0-9]+|pull_rebase_todo_is_empty|force_restore_rebase_hooks|fetch_authorship_notes)\s*\(|(RewriteLogEvent::[a-z_]+)\s*\(", arm):
+            c = m.group(1) or m.group(2)
             if c in ("handle_rewrite_log_event",):
                 continue
             if c not in calls:
